@@ -141,6 +141,11 @@ fn mp_head(h: &str, t: &Tab) -> Vec<u8> {
         "nofnquote" => format!("{cd}; filename=f.txt\r\n\r\n"),
         "openquote" => "Content-Disposition: form-data; name=\"a\r\n\r\n".into(),
         "ctnoval" => format!("{cd}; filename=\"f.txt\"\r\nContent-Type\r\n\r\n"),
+        "truncq" => "Content-Disposition: form-data; name=\"na".into(),
+        "truncbs" => "Content-Disposition: form-data; name=\"na\\".into(),
+        "fntruncbs" => format!("{cd}; filename=\"f\\"),
+        "escq" => "Content-Disposition: form-data; name=\"a\\\"b\\\\c\"\r\n\r\n".into(),
+        "bsend" => "Content-Disposition: form-data; name=\"a\\\"\r\n\r\n".into(),
         _ => return vec![],
     };
     s.into_bytes()
@@ -328,7 +333,7 @@ pub fn gen(rng: &mut Rng, i: usize) -> Value {
     let toks: &[&str] = match dec {
         "urlenc" => &["ka", "kz", "=", "&", "1", "x", "true", ",", "%41", "LONG", "-", ".", "+", "%C3%A9", "e", "%", "%4", "%G1", "%FF", "%C3", "HI", "NUL"],
         "cookie" => &["ka", "kz", "=", "; ", ";", " ", "1", "x", "true", "%41", "LONG", "-", ".", "%C3%A9", "DQ", "%", "%G1", "%FF", "%C3", "U8", "&", "("],
-        "multipart" => &["P:text", "P:file", "P:filect", "P:conv", "P:nocd", "P:noblank", "P:badhdr", "P:noquote", "P:lfonly", "P:mixed", "P:hiname", "P:nofnquote", "P:openquote", "P:ctnoval",
+        "multipart" => &["P:text", "P:file", "P:filect", "P:conv", "P:nocd", "P:noblank", "P:badhdr", "P:noquote", "P:lfonly", "P:mixed", "P:hiname", "P:nofnquote", "P:openquote", "P:ctnoval", "P:truncq", "P:truncbs", "P:fntruncbs", "P:escq", "P:bsend", "N:truncbs", "N:fntruncbs",
                          "N:text", "N:file", "N:filect", "N:conv", "N:nocd", "N:noblank", "N:lfonly", "N:openquote", "c", "CR", "LF", "-", "HI", "D", "D", "D", "D:other", "B", "END", "END", "CRLF"],
         "setcookie" => &["n", "=", "v", "%41", "DQ", "%C3%A9", "; ", ";", "%FF", "%", "%G1", "Max-Age=", "max-age=", "Max-Age", "1", "x", " ", "-", "HUGE", "HI", "Path=", "Expires=", "Domain=", "/", "Secure", "HttpOnly", "SameSite=", "Lax", "Foo"],
         _ => &["x", "1", "%41", "%C3%A9", "-", "%2F", "+", "%", "%4", "%G1", "%FF", "%C3", "%00", "HI", "9x20"],
